@@ -93,6 +93,7 @@ type SpecFunc struct {
 	Ret    string
 	Body   Expr // nil for uninterpreted
 	Rec    bool
+	Quant  bool // qrec func: applications under a quantifier get the definition as a quantified, triggered axiom
 	Src    string
 	Also   []Expr // companion facts asserted whenever the function is unfolded (definitional axioms of auxiliary ufuncs)
 	AlsoSrc []string
@@ -159,7 +160,7 @@ func newSpecDB() *SpecDB {
 
 var reClauseHead = regexp.MustCompile(`^(requires|ensures|assumes|invariant)\s+((?:@[A-Z0-9,]+\s+)?)((?:[A-Za-z_][A-Za-z0-9_\-]*:\s+)?)(.*)$`)
 var reContractHead = regexp.MustCompile(`^(contract|stub)\s+(\S+)\s*\(([^)]*)\)\s*(?:\(([^)]*)\))?\s*$`)
-var reFuncHead = regexp.MustCompile(`^(rec func|func|ufunc)\s+([A-Za-z_][A-Za-z0-9_]*)\s*\(([^)]*)\)\s*([^=]*?)\s*(?:=\s*(.*))?$`)
+var reFuncHead = regexp.MustCompile(`^(qrec func|rec func|func|ufunc)\s+([A-Za-z_][A-Za-z0-9_]*)\s*\(([^)]*)\)\s*([^=]*?)\s*(?:=\s*(.*))?$`)
 
 // splitContractHead: "contract (*T).M(a, b) (r, err)" -> [_, kind, name, params, results]
 func splitContractHead(t string) []string {
@@ -254,7 +255,7 @@ func (db *SpecDB) loadSpecFile(path string, prefix string) error {
 		lines = append(lines, lineT{strings.TrimSpace(t), i + 1})
 	}
 	// join continuation lines: a line that does not start with a directive keyword continues the previous one
-	kw := regexp.MustCompile(`^(contract|stub|rec func|func|ufunc|ghost field|const|axiom|lemma|owner|callsite|strclass|prop|requires|ensures|assumes|invariant|modifies|fresh|loop|trusted|maypanic|pure|nooverflow|inline|thread|use|by induction|ghostset|also|split|before|onrecv|join|recv|backedge|onlyuse)\b`)
+	kw := regexp.MustCompile(`^(contract|stub|qrec func|rec func|func|ufunc|ghost field|const|axiom|lemma|owner|callsite|strclass|prop|requires|ensures|assumes|invariant|modifies|fresh|loop|trusted|maypanic|pure|nooverflow|inline|thread|use|by induction|ghostset|also|split|before|onrecv|join|recv|backedge|onlyuse)\b`)
 	var joined []lineT
 	for _, l := range lines {
 		if kw.MatchString(l.text) || len(joined) == 0 {
@@ -287,12 +288,12 @@ func (db *SpecDB) loadSpecFile(path string, prefix string) error {
 			db.Order = append(db.Order, cur.Name)
 			curLoop = nil
 			curLemma = nil
-		case strings.HasPrefix(t, "rec func ") || strings.HasPrefix(t, "func ") || strings.HasPrefix(t, "ufunc "):
+		case strings.HasPrefix(t, "qrec func ") || strings.HasPrefix(t, "rec func ") || strings.HasPrefix(t, "func ") || strings.HasPrefix(t, "ufunc "):
 			m := reFuncHead.FindStringSubmatch(t)
 			if m == nil {
 				return fail(l, "bad func %q", t)
 			}
-			sf := &SpecFunc{Name: m[2], Params: parseParams(m[3]), Ret: strings.TrimSpace(m[4]), Rec: m[1] == "rec func", Src: t}
+			sf := &SpecFunc{Name: m[2], Params: parseParams(m[3]), Ret: strings.TrimSpace(m[4]), Rec: m[1] == "rec func" || m[1] == "qrec func", Quant: m[1] == "qrec func", Src: t}
 			if sf.Ret == "" {
 				sf.Ret = "int"
 			}
